@@ -34,6 +34,7 @@ import (
 	"github.com/lestrrat-go/jwx/v2/jwt"
 	"github.com/nuts-foundation/nuts-node/audit"
 	"github.com/nuts-foundation/nuts-node/core"
+	"github.com/nuts-foundation/nuts-node/crypto/jwx"
 	"github.com/nuts-foundation/nuts-node/http/log"
 	"github.com/sirupsen/logrus"
 )
@@ -145,6 +146,12 @@ func (m middlewareImpl) checkConnectionAuthorization(context echo.Context, next 
 		if err != nil {
 			log.Logger().WithError(err).Error("Failed to parse JWT")
 			continue
+		}
+
+		// The candidate algorithms were inferred from the type of the key only, so make sure the key is on the curve
+		// the signing algorithm of the token prescribes.
+		if err := keyFitsSigningAlgorithm(credential, authorizedKey); err != nil {
+			return unauthorizedError(context, err)
 		}
 
 		// The JWT was indeed signed by this authorized key, but that is not enough to authorize the request.
@@ -319,6 +326,25 @@ func bestPracticesCheck(token jwt.Token) error {
 	}
 
 	// No best practices issues were found, so return nil
+	return nil
+}
+
+// keyFitsSigningAlgorithm returns an error if the authorized key can't be used with the signing algorithm of the credential,
+// e.g. an ES384 token signed with a P-256 key.
+func keyFitsSigningAlgorithm(credential string, authorizedKey authorizedKey) error {
+	message, err := jws.ParseString(credential)
+	if err != nil {
+		return fmt.Errorf("cannot parse credential: jws.ParseString: %w", err)
+	}
+	for _, signature := range message.Signatures() {
+		algorithm := signature.ProtectedHeaders().Algorithm()
+		for i := 0; i < authorizedKey.jwkSet.Len(); i++ {
+			key, _ := authorizedKey.jwkSet.Key(i)
+			if err := jwx.ValidateKeyForAlgorithm(algorithm, key); err != nil {
+				return err
+			}
+		}
+	}
 	return nil
 }
 
